@@ -346,11 +346,6 @@ End IndexMap.
 Section Pipeline.
   Variable K : Fld.
   Notation conv := ((K -> K) * (K -> K))%type.
-  (* all compress conversions in pipeline order / all decompress conversions in reverse pipeline order *)
-  Definition call (l : list conv) (v : K) : K := fold_left (fun v cd => fst cd v) l v.
-  Definition dall (l : list conv) (v : K) : K := fold_right (fun cd v => snd cd v) v l.
-  Definition convs (l : list conv) : list (module K) := map (fun cd => Conv (fst cd) (snd cd)) l.
-  Definition sconvs (l : list conv) : list (module_spec K) := map (fun cd => SConv (fst cd) (snd cd)) l.
 
   Lemma init_modules_convs lg l r T :
     init_modules K lg (sconvs l ++ r) T =
@@ -568,21 +563,70 @@ Section Pipeline.
   Qed.
 
   (* widening conversions are the identity on values: then the recorded value / the plain interpolation comes back *)
-  Lemma call_id l v : (forall cd, In cd l -> forall x, fst cd x = x) -> call l v = v.
+  Lemma call_id (l : list conv) (v : K) : (forall cd, In cd l -> forall x, fst cd x = x) -> call l v = v.
   Proof.
     revert v; induction l as [|cd l IH]; intros v H; [reflexivity|]. change (call (cd :: l) v) with (call l (fst cd v)).
     rewrite (H cd) by (left; reflexivity). apply IH. intros; apply H; right; assumption.
   Qed.
-  Lemma dall_id l v : (forall cd, In cd l -> forall x, snd cd x = x) -> dall l v = v.
+  Lemma dall_id (l : list conv) (v : K) : (forall cd, In cd l -> forall x, snd cd x = x) -> dall l v = v.
   Proof.
     induction l as [|cd l IH]; intros H; [reflexivity|]. change (dall (cd :: l) v) with (snd cd (dall l v)).
     rewrite IH by (intros; apply H; right; assumption). apply H. left; reflexivity.
   Qed.
   (* each conversion round-trips (decompress (compress x) = x): saved steps come back exactly *)
-  Lemma dall_call_roundtrip l v : (forall cd, In cd l -> forall x, snd cd (fst cd x) = x) -> dall l (call l v) = v.
+  Lemma dall_call_roundtrip (l : list conv) (v : K) : (forall cd, In cd l -> forall x, snd cd (fst cd x) = x) -> dall l (call l v) = v.
   Proof.
     revert v; induction l as [|cd l IH]; intros v H; [reflexivity|].
     change (dall (cd :: l) (call (cd :: l) v)) with (snd cd (dall l (call l (fst cd v)))).
     rewrite IH by (intros; apply H; right; assumption). apply H. left; reflexivity.
   Qed.
 End Pipeline.
+
+(* run_many is run_recorder at every listed step *)
+Lemma run_many_spec (K : Fld) lg nan specs T vals ts :
+  map (run_recorder K lg nan specs T vals) ts =
+  match run_many K lg nan specs T vals ts with Some l => map Some l | None => map (fun _ => None) ts end.
+Proof.
+  unfold run_many, run_recorder. destruct (init_modules K lg specs T) as [[ms size]|]; [|reflexivity].
+  cbv zeta. rewrite map_map. reflexivity.
+Qed.
+
+(* ------------------------------------------------------------------ executable instance: fofZ is the usual injection *)
+Lemma fofpos_Qc p : fofpos QcF p = Q2Qc (inject_Z (Zpos p)).
+Proof.
+  induction p as [p IH|p IH|]; cbn [fofpos].
+  - rewrite IH. apply Qc_is_canon. cbn [QcF f1 fadd fmul car]. unfold Qcplus, Qcmult, Q2Qc. cbn [this].
+    rewrite !Qred_correct. unfold Qeq, inject_Z. cbn. lia.
+  - rewrite IH. apply Qc_is_canon. cbn [QcF f1 fadd fmul car]. unfold Qcplus, Qcmult, Q2Qc. cbn [this].
+    rewrite !Qred_correct. unfold Qeq, inject_Z. cbn. lia.
+  - apply Qc_is_canon. reflexivity.
+Qed.
+Lemma fofZ_Qc z : fofZ (K := QcF) z = Q2Qc (inject_Z z).
+Proof.
+  destruct z as [|p|p]; cbn [fofZ].
+  - apply Qc_is_canon. reflexivity.
+  - apply fofpos_Qc.
+  - rewrite fofpos_Qc. apply Qc_is_canon. cbn [QcF fopp]. unfold Qcopp, Q2Qc. cbn [this]. rewrite !Qred_correct. reflexivity.
+Qed.
+
+(* ------------------------------------------------------------------ the unchanged source (legacy variant) violates the property *)
+(* (T,k,start) = (10,3,2): the unsaved step 3 lies between the saved steps 2 and 5, the old code interpolates
+   from step 0 (index_1d_array finds the first 0 of the map): weight 3/5 instead of 1/3 *)
+Theorem decompress_src_old_refuted :
+  exists T k s t (vals : Z -> Qc), 0 < k /\ 0 <= s < T /\ s <= t < T /\
+    save_steps T k s = Some [2; 5; 8; 9] /\
+    run_recorder QcF true 0%Qc [SEveryK k s] T vals t <> Some (lerp QcF (vals 2) (vals 5) (fdiv QcF (fofZ (t - 2)) (fofZ (5 - 2)))).
+Proof.
+  exists 10, 3, 2, 3, (fun t => Q2Qc (inject_Z (t * t))).
+  repeat split; try lia; try reflexivity. vm_compute. discriminate.
+Qed.
+(* (T,k,start) = (5,8,0): both saved steps 0 and 4 share array slot 0 in the old index map, so the value
+   recorded at step 0 is overwritten and step 0 does not decompress to what was recorded *)
+Theorem slots_collide_src_old_refuted :
+  exists T k s t (vals : Z -> Qc) sv, 0 < k /\ 0 <= s < T /\ s <= t < T /\
+    save_steps T k s = Some sv /\ In t sv /\
+    run_recorder QcF true 0%Qc [SEveryK k s] T vals t <> Some (vals t).
+Proof.
+  exists 5, 8, 0, 0, (fun t => Q2Qc (inject_Z (t + 1))), [0; 4].
+  repeat split; try lia; try reflexivity; [left; reflexivity|]. vm_compute. discriminate.
+Qed.
